@@ -23,12 +23,15 @@ static uint64_t fnv(uint64_t h, const void *p, size_t n) { const unsigned char *
 static uint64_t globals_hash(void) { uint64_t h = FNV0; for (int i = 0; i < nseg; i++) h = fnv(h, seg[i].p, seg[i].n); return h; }
 
 /* ---- the workload: call id -> digest of (return code, outputs) ---- */
-#define NCALLS 96
+#define NCALLS 144   /* calls 96..143: the same twelve kinds of call on cells that straddle the antimeridian (even) or sit next to a pole (odd blocks of twelve) */
 static H3Index PENT[16][12];
 static H3Index cellA[NCALLS];
 static void prepare(uint64_t seed) {
     vt_seed(seed); for (int r = 0; r < 16; r++) getPentagons(r, PENT[r]);
-    for (int i = 0; i < NCALLS; i++) cellA[i] = (i % 3 == 0) ? PENT[1 + (i * 5) % 15][i % 12] : vt_random_cell(1 + (i * 7) % 15);
+    for (int i = 0; i < 96; i++) cellA[i] = (i % 3 == 0) ? PENT[1 + (i * 5) % 15][i % 12] : vt_random_cell(1 + (i * 7) % 15);
+    for (int i = 96; i < NCALLS; i++) { int res = 1 + (i * 7) % 13; LatLng g = {(vt_rand01() - 0.5) * 2.4, (i & 1) ? M_PI : -M_PI};
+        if ((i / 12) % 4 == 3) { g.lat = (i & 1 ? 1 : -1) * (M_PI_2 - 0.01 * vt_rand01()); g.lng = (vt_rand01() - 0.5) * 6.28; }
+        cellA[i] = 0; latLngToCell(&g, res, &cellA[i]); }
 }
 static uint64_t do_call(int c) {
     uint64_t h = FNV0; H3Error r = 0; H3Index a = cellA[c]; int res = getResolution(a);
